@@ -78,6 +78,24 @@ func (h *c18Harness) before(ev *Event) {
 		}
 		tr, _ := w.App.Rewardskeeper.GetLockerRewardTracker(ctx, l.LockerId, l.AppId)
 		h.pre.kind, h.pre.id, h.pre.net, h.pre.frac = "locker", l.LockerId, l.NetBalance, decOr0(tr.RewardsAccumulated)
+		if h.ltrig[l.LockerId] == 0 && !h.lexcl[l.LockerId] && !h.diverged {
+			// lockers draw on one fee pool: triggers on other lockers and vaults (world A only) may already have left
+			// this locker with different earnings than its twin (a settlement loop that drops what the pool cannot
+			// cover, listed C13 finding). Only a locker that is identical in both worlds before its first extra
+			// trigger says anything about that trigger.
+			ea, pa, _, ok1 := earnedLocker(h.a, l.LockerId)
+			eb, pb, _, ok2 := earnedLocker(h.b, l.LockerId)
+			if !ok1 || !ok2 || !pa.Equal(pb) || !ea.Equal(eb) {
+				if h.lexcl == nil {
+					h.lexcl = map[uint64]bool{}
+				}
+				h.lexcl[l.LockerId] = true
+				w.Stats.Probe("c18.locker_twin_differs_before_trigger")
+				if os.Getenv("VERIF_DEBUG_C18") != "" {
+					fmt.Fprintf(os.Stderr, "C18 locker %d excluded: before its first trigger A earned %v, B %v\n", l.LockerId, ea, eb)
+				}
+			}
+		}
 		h.pre.sameSecond = l.BlockHeight != 0 && l.BlockTime.Unix() == ctx.BlockTime().Unix()
 		h.pre.valid = true
 	}
